@@ -189,6 +189,10 @@ type c26Conc struct {
 	names map[string]string
 	style int // quoting style of string literals
 	sep   string
+	// totality: comments are not everywhere equivalent to whitespace for the lexer (not inside [ ],
+	// not between fill / fill_left / fill_right and their parenthesis), so texts with comments are only
+	// checked for totality and round trip, not against the predicted verdict
+	totality bool
 }
 
 func c26Concs(seed int64) []c26Conc {
@@ -201,13 +205,14 @@ func c26Concs(seed int64) []c26Conc {
 		{strs: base, names: n1, style: 0, sep: " "},
 		{strs: alt, names: n2, style: 1, sep: "  "},
 		{strs: base, names: n3, style: 2, sep: "\n"},
-		{strs: alt, names: n1, style: 0, sep: " # c\n"},
 	}
 	k := int(seed) % len(all)
 	if k < 0 {
 		k += len(all)
 	}
-	return append(all[k:], all[:k]...)
+	all = append(all[k:], all[:k]...)
+	// always last
+	return append(all, c26Conc{strs: alt, names: n1, style: 0, sep: " # c\n", totality: true})
 }
 
 func (c c26Conc) quote(v string) string {
@@ -521,8 +526,9 @@ func TestVerifC26Syntax(t *testing.T) {
 	concs := c26Concs(verifh.Seed())
 	nconc := 2
 	if !verifh.Quick() {
-		nconc = len(concs)
+		nconc = len(concs) - 1
 	}
+	comments := concs[len(concs)-1]
 	widths := []int{100, 30, 8, 1}
 	var parsed, rejected, mutTotal, mutParsed, mutRejected, seqs, kfSeen int
 	viol := func(sig, msg string, cs *c26Case, text string) {
@@ -546,6 +552,14 @@ func TestVerifC26Syntax(t *testing.T) {
 	}
 	for ci := range cases {
 		cs := &cases[ci]
+		if !cs.Seq && (ci+int(verifh.Seed()))%2 == 0 {
+			text := comments.text(cs.Toks)
+			if e, ok := any1(cs, text, "commented"); ok {
+				if kind, msg := c26RoundTrip(e, widths[:2]); kind != "" && !(c26InfPow(c26Norm(e)) && strings.HasPrefix(kind, "print-")) {
+					viol("commented|"+kind, fmt.Sprintf("%q: %s", text, msg), cs, text)
+				}
+			}
+		}
 		for k := 0; k < nconc; k++ {
 			c := concs[k]
 			if cs.Seq {
